@@ -79,6 +79,9 @@ def ode15s(dae: nDAE,
     """
     if opt is None:
         opt = Opt()
+    if opt.event is not None:
+        # event location is not implemented here: refuse loudly instead of integrating and returning None
+        raise NotImplementedError('ode15s does not support events (opt.event); use Rodas')
     stats = Stats('ode15s')
 
     vsize = y0.shape[0]
